@@ -409,3 +409,362 @@ Proof.
   destruct (run_ops_total ops _ _ (R_init created ttl Ht1 Ht2 Hc) Hops Ha) as (r' & outs & H).
   rewrite H. simpl. eauto.
 Qed.
+
+(* ------------------------------------------------------------------ the refresh ladder *)
+
+Definition pending (s : astate) : list N :=
+  let c := a_created s in let t := a_ttl s in
+  let k := a_k s in
+  if k =? 0 then [c + 800 * t; c + 850 * t; c + 900 * t; c + 950 * t]
+  else if k =? 1 then [c + 850 * t; c + 900 * t; c + 950 * t]
+  else if k =? 2 then [c + 900 * t; c + 950 * t]
+  else if k =? 3 then [c + 950 * t]
+  else [].
+
+Lemma pending_step s :
+  a_k s <= 4 ->
+  match pending s with
+  | m :: rest => a_k s < 4 /\ m = amark s /\ pending (a_setk s (a_k s + 1)) = rest
+  | [] => a_k s = 4
+  end.
+Proof.
+  intros Hk. destruct s as [c t k e]. unfold pending, amark, mark_percent, a_setk. simpl in *.
+  destruct (k_cases k Hk) as [K|[K|[K|[K|K]]]]; subst k; simpl; repeat split; try lia; reflexivity.
+Qed.
+
+Lemma refresh_obs_spec obs : forall r s,
+  R r s -> refresh_obs r obs = Ok (ladder_spec (pending s) (a_expires s) obs).
+Proof.
+  induction obs as [|now obs IH]; intros r s HR; [reflexivity|].
+  simpl. destruct (refresh_maybe_spec r s now HR) as (r' & E & HR'). rewrite E. simpl.
+  assert (Hk : a_k s <= 4) by (destruct HR as (_ & _ & _ & _ & Hk & _); exact Hk).
+  pose proof (pending_step s Hk) as P.
+  unfold a_due in *.
+  destruct (pending s) as [|m rest] eqn:Ep.
+  - assert (a_k s <? 4 = false) as Hf by (apply N.ltb_ge; lia).
+    rewrite Hf, andb_false_r in *. simpl in *. rewrite (IH _ _ HR'). rewrite Ep. reflexivity.
+  - destruct P as (Hlt & Hm & Hrest). apply N.ltb_lt in Hlt. rewrite Hlt, andb_true_r in *. subst m.
+    destruct ((now <? a_expires s) && (amark s <=? now)) eqn:Ec.
+    + rewrite (IH _ _ HR'). simpl. rewrite Hrest. reflexivity.
+    + rewrite (IH _ _ HR'). rewrite Ep. reflexivity.
+Qed.
+
+(* a record received at T with TTL t: refresh_maybe over ANY sequence of observation times
+   answers exactly as the ladder over the four marks says *)
+Lemma refresh_marks T t r obs :
+  new_rec T t = Ok r -> 1 <= t -> t < U32 -> T < B63 ->
+  refresh_obs r obs = Ok (ladder_spec (marks4 T t) (T + 1000 * t) obs).
+Proof.
+  intros H Ht1 Ht2 HT. apply new_rec_inv in H as [-> _].
+  rewrite (refresh_obs_spec obs _ _ (R_init T t Ht1 Ht2 HT)). reflexivity.
+Qed.
+
+Lemma refresh_once_obs_spec obs : forall r s,
+  R r s -> refresh_once_obs r obs = Ok (ladder_spec (firstn 1 (pending s)) (a_expires s) obs).
+Proof.
+  induction obs as [|now obs IH]; intros r s HR; [reflexivity|].
+  simpl. destruct (refresh_once_spec r s now HR) as (r' & E & HR'). rewrite E. simpl.
+  assert (Hk : a_k s <= 4) by (destruct HR as (_ & _ & _ & _ & Hk & _); exact Hk).
+  pose proof (pending_step s Hk) as P.
+  unfold a_due in *.
+  destruct (pending s) as [|m rest] eqn:Ep.
+  - assert (a_k s <? 4 = false) as Hf by (apply N.ltb_ge; lia).
+    rewrite Hf, andb_false_r in *. simpl in *. rewrite (IH _ _ HR'). rewrite Ep. reflexivity.
+  - destruct P as (Hlt & Hm & Hrest). apply N.ltb_lt in Hlt. rewrite Hlt, andb_true_r in *. subst m.
+    simpl. destruct ((now <? a_expires s) && (amark s <=? now)) eqn:Ec.
+    + rewrite (IH _ _ HR').
+      assert (pending (a_setk s 4) = []) as -> by (destruct s; reflexivity). reflexivity.
+    + rewrite (IH _ _ HR'). rewrite Ep. reflexivity.
+Qed.
+
+(* hostname-resolver addresses: one refresh, at the first observation at or after 80 % *)
+Lemma refresh_once_marks T t r obs :
+  new_rec T t = Ok r -> 1 <= t -> t < U32 -> T < B63 ->
+  refresh_once_obs r obs = Ok (ladder_spec [T + 800 * t] (T + 1000 * t) obs).
+Proof.
+  intros H Ht1 Ht2 HT. apply new_rec_inv in H as [-> _].
+  rewrite (refresh_once_obs_spec obs _ _ (R_init T t Ht1 Ht2 HT)). reflexivity.
+Qed.
+
+(* facts about the ladder itself *)
+Lemma ladder_count marks e obs : (count_true (ladder_spec marks e obs) <= length marks)%nat.
+Proof.
+  revert marks. induction obs as [|now obs IH]; intros marks; simpl; [unfold count_true; simpl; lia|].
+  destruct marks as [|m marks'].
+  - apply (IH []).
+  - destruct ((now <? e) && (m <=? now)).
+    + unfold count_true in *. simpl. specialize (IH marks'). lia.
+    + apply (IH (m :: marks')).
+Qed.
+
+Lemma ladder_before_expiry marks e obs :
+  Forall (fun now => now < e) (true_times obs (ladder_spec marks e obs)).
+Proof.
+  revert marks. induction obs as [|now obs IH]; intros marks; simpl; [constructor|].
+  destruct marks as [|m marks'].
+  - apply (IH []).
+  - destruct ((now <? e) && (m <=? now)) eqn:E.
+    + apply andb_true_iff in E as [E _]. apply N.ltb_lt in E. constructor; auto.
+    + apply (IH (m :: marks')).
+Qed.
+
+Lemma ladder_at_or_after marks e obs :
+  at_or_after marks (true_times obs (ladder_spec marks e obs)).
+Proof.
+  revert marks. induction obs as [|now obs IH]; intros marks; simpl; [exact I|].
+  destruct marks as [|m marks'].
+  - apply (IH []).
+  - destruct ((now <? e) && (m <=? now)) eqn:E.
+    + apply andb_true_iff in E as [_ E]. apply N.leb_le in E. simpl. split; auto.
+    + apply (IH (m :: marks')).
+Qed.
+
+(* a mark is not skipped: while a mark is pending, an observation at or after it and before
+   expiry is answered with true *)
+Lemma ladder_takes_due m marks e now obs :
+  m <= now -> now < e ->
+  ladder_spec (m :: marks) e (now :: obs) = true :: ladder_spec marks e obs.
+Proof.
+  intros H1 H2. simpl. apply N.leb_le in H1. apply N.ltb_lt in H2. rewrite H1, H2. reflexivity.
+Qed.
+
+Lemma ladder_timer_exact T t :
+  1 <= t ->
+  ladder_spec (marks4 T t) (T + 1000 * t) (marks4 T t ++ [T + 1000 * t]) = [true; true; true; true; false].
+Proof.
+  intros Ht. unfold marks4. cbn [app].
+  rewrite !ladder_takes_due by lia. reflexivity.
+Qed.
+
+(* reset_ttl forgets everything: it is a fresh record with the other record's TTL and
+   creation time (for TTL > 1), so the ladder restarts from the new TTL *)
+Lemma reset_ttl_is_new r t c : 1 < t -> reset_ttl r t c = new_rec c t.
+Proof.
+  intros H. unfold reset_ttl, new_rec, reset_expires_percent, reset_refresh_guard,
+    reset_refresh_percent, new_refresh_percent, new_expires_percent.
+  apply N.ltb_lt in H. rewrite H. unfold exp_time.
+  destruct (chk64_cases (expiration_time c t 100)) as [-> | ->];
+    destruct (chk64_cases (expiration_time c t 80)) as [-> | ->]; reflexivity.
+Qed.
+
+Lemma reset_ttl_one r c r' : reset_ttl r 1 c = Ok r' -> r' = mkT 1 c (c + 1000) (c + 1000).
+Proof.
+  unfold reset_ttl, reset_expires_percent, reset_refresh_guard. change (1 <? 1) with false. cbv iota.
+  intros H. apply bind_ok_inv in H as (e & He & H). simpl in H. inversion H; subst.
+  apply exp_time_inv in He as [-> _]. f_equal; lia.
+Qed.
+
+Lemma reset_restarts r t c r' obs :
+  1 < t -> t < U32 -> c < B63 -> reset_ttl r t c = Ok r' ->
+  refresh_obs r' obs = Ok (ladder_spec (marks4 c t) (c + 1000 * t) obs).
+Proof.
+  intros H1 H2 H3 H. rewrite reset_ttl_is_new in H by assumption.
+  eapply refresh_marks; eauto. lia.
+Qed.
+
+(* ------------------------------------------------------------------ update_ttl / remaining *)
+
+Lemma update_ttl_panic_iff r now :
+  update_ttl r now = Panic <->
+  t_created r < now /\ t_ttl r < ((now - t_created r) / 1000) mod U32.
+Proof.
+  unfold update_ttl, update_ttl_guard, update_ttl_dec, update_ttl_elapsed.
+  destruct (t_created r <? now) eqn:E1.
+  - apply N.ltb_lt in E1. destruct (t_ttl r <? _) eqn:E2.
+    + apply N.ltb_lt in E2. tauto.
+    + apply N.ltb_ge in E2. split; [discriminate | lia].
+  - apply N.ltb_ge in E1. split; [discriminate | lia].
+Qed.
+
+(* under the half-life guard of get_known_answers the subtraction cannot underflow, and the
+   TTL written is the remaining whole seconds *)
+Lemma update_ttl_under_halflife r now :
+  t_ttl r < U32 -> now <= t_created r + 500 * t_ttl r ->
+  update_ttl r now = Ok (set_ttl r (ka_ttl_spec (t_ttl r) (t_created r) now))
+  /\ (now - t_created r) / 1000 <= t_ttl r / 2.
+Proof.
+  intros Ht Hh. unfold update_ttl, update_ttl_guard, update_ttl_dec, update_ttl_elapsed, ka_ttl_spec.
+  assert (Hd : (now - t_created r) / 1000 <= t_ttl r / 2).
+  { apply N.div_le_lower_bound; [lia|].
+    pose proof (N.mul_div_le (now - t_created r) 1000 ltac:(lia)). lia. }
+  split; [|exact Hd].
+  assert (Hle : t_ttl r / 2 <= t_ttl r) by (apply N.div_le_upper_bound; lia).
+  destruct (t_created r <? now) eqn:E1.
+  - rewrite N.mod_small by lia.
+    assert (t_ttl r <? (now - t_created r) / 1000 = false) as -> by (apply N.ltb_ge; lia).
+    reflexivity.
+  - apply N.ltb_ge in E1. replace (now - t_created r) with 0 by lia.
+    rewrite N.div_0_l by lia. rewrite N.sub_0_r. destruct r; reflexivity.
+Qed.
+
+Lemma halflife_passed_false_iff r now h :
+  halflife_passed r now = Ok h -> (h = false <-> now <= t_created r + 500 * t_ttl r).
+Proof.
+  unfold halflife_passed, halflife_percent, halflife_passed_g. intros H.
+  apply bind_ok_inv in H as (x & Hx & H). apply exp_time_inv in Hx as [-> _]. inversion H; subst.
+  rewrite N.ltb_ge. lia.
+Qed.
+
+Lemma remaining_ttl_panic_iff r now :
+  t_created r + 1000 * t_ttl r < U64 ->
+  (remaining_ttl r now = Panic <-> t_created r + 1000 * t_ttl r < now).
+Proof.
+  intros Hfit. unfold remaining_ttl, remaining_percent.
+  rewrite (exp_time_le _ _ 100 100) by lia. simpl.
+  destruct (_ <? now) eqn:E.
+  - apply N.ltb_lt in E. split; [lia | reflexivity].
+  - apply N.ltb_ge in E. split; [discriminate | lia].
+Qed.
+
+(* ------------------------------------------------------------------ no overflow *)
+
+Lemma no_overflow_marks c t p : c < B63 -> t < U32 -> p <= 100 -> exp_time c t p <> Panic.
+Proof. intros. rewrite exp_time_ok by assumption. discriminate. Qed.
+
+Lemma no_overflow_expires_soon r now : now < B63 -> expires_soon r now <> Panic.
+Proof.
+  intros H. unfold expires_soon, expires_soon_lhs. rewrite chk64_ok by (unfold U64, B63 in *; lia).
+  simpl. discriminate.
+Qed.
+
+(* ------------------------------------------------------------------ C10: relations *)
+
+Lemma half_lt a b : (a / 2 <? b) = (a <? 2 * b).
+Proof.
+  pose proof (N.div_mod a 2 ltac:(lia)) as H. pose proof (N.mod_lt a 2 ltac:(lia)) as H0.
+  set (x := a / 2) in *. set (y := a mod 2) in *. clearbody x y.
+  destruct (a <? 2 * b) eqn:E; [apply N.ltb_lt in E; apply N.ltb_lt | apply N.ltb_ge in E; apply N.ltb_ge]; lia.
+Qed.
+
+Lemma suppress_iff mine tm theirs tt :
+  suppressed_by_answer mine tm theirs tt = true <-> matches mine theirs = true /\ tm < 2 * tt.
+Proof.
+  unfold suppressed_by_answer, suppress_ttl_cond. rewrite half_lt, andb_true_iff, N.ltb_lt. tauto.
+Qed.
+
+(* the boundary in words: above half suppresses, exactly half and below do not *)
+Lemma suppress_boundary mine tm theirs tt :
+  matches mine theirs = true ->
+  (2 * tt > tm -> suppressed_by_answer mine tm theirs tt = true) /\
+  (2 * tt <= tm -> suppressed_by_answer mine tm theirs tt = false).
+Proof.
+  intros Hm. split; intros H.
+  - apply suppress_iff. split; [assumption | lia].
+  - destruct (suppressed_by_answer mine tm theirs tt) eqn:E; [|reflexivity].
+    apply suppress_iff in E as [_ E]. lia.
+Qed.
+
+Lemma beq_rdata_eq a b : beq_rdata a b = true <-> a = b.
+Proof.
+  destruct a, b; simpl; try (split; [discriminate | intros H; discriminate H]);
+    rewrite ?andb_true_iff, ?beq_eq, ?N.eqb_eq.
+  - split; [intros ->; reflexivity | intros H; inversion H; reflexivity].
+  - split; [intros ->; reflexivity | intros H; inversion H; reflexivity].
+  - split; [intros [[[-> ->] ->] ->]; reflexivity | intros H; inversion H; auto].
+  - split; [intros ->; reflexivity | intros H; inversion H; reflexivity].
+  - split; [intros [-> ->]; reflexivity | intros H; inversion H; auto].
+  - split; [intros [-> ->]; reflexivity | intros H; inversion H; auto].
+Qed.
+
+(* matches = same owner name (byte for byte), type, class, cache-flush bit, record kind and
+   RDATA; for addresses also the same interface *)
+Lemma matches_iff a b :
+  matches a b = true <->
+  i_data a = i_data b /\ i_name a = i_name b /\ i_type a = i_type b /\ i_class a = i_class b /\
+  i_flush a = i_flush b /\ (is_addr_data (i_data a) = true -> i_if a = i_if b).
+Proof.
+  unfold matches, rrdata_match, entry_eq.
+  rewrite !andb_true_iff, beq_rdata_eq, beq_eq, !N.eqb_eq, Bool.eqb_true_iff.
+  destruct (is_addr_data (i_data a)).
+  - rewrite N.eqb_eq. intuition.
+  - intuition. discriminate.
+Qed.
+
+Lemma matches_rrdata a b : matches a b = true -> rrdata_match a b = true.
+Proof. unfold matches. rewrite !andb_true_iff. tauto. Qed.
+
+(* code vs. property text: `matches` additionally compares the cache-flush bit *)
+Lemma matches_same_record a b :
+  matches a b = same_record a b && Bool.eqb (i_flush a) (i_flush b).
+Proof.
+  unfold matches, same_record, rrdata_match, entry_eq.
+  destruct (beq_rdata (i_data a) (i_data b)), (beq (i_name a) (i_name b)), (i_type a =? i_type b),
+    (i_class a =? i_class b), (Bool.eqb (i_flush a) (i_flush b)), (is_addr_data (i_data a)),
+    (i_if a =? i_if b); reflexivity.
+Qed.
+
+Lemma suppress_agrees_with_spec mine tm theirs tt :
+  i_flush mine = i_flush theirs ->
+  suppressed_by_answer mine tm theirs tt = suppress_spec mine tm theirs tt.
+Proof.
+  intros Hf. unfold suppressed_by_answer, suppress_spec, suppress_ttl_cond.
+  rewrite half_lt, matches_same_record, Hf, Bool.eqb_reflx, andb_true_r. reflexivity.
+Qed.
+
+(* ... and a known answer that differs only in the cache-flush bit never suppresses *)
+Lemma suppress_flush_bit_differs mine tm theirs tt :
+  i_flush mine <> i_flush theirs -> suppressed_by_answer mine tm theirs tt = false.
+Proof.
+  intros Hf. unfold suppressed_by_answer. rewrite matches_same_record.
+  destruct (Bool.eqb (i_flush mine) (i_flush theirs)) eqn:E.
+  - apply Bool.eqb_prop in E. contradiction.
+  - rewrite andb_false_r. reflexivity.
+Qed.
+
+Definition srv_example (flush : bool) : ident :=
+  mkId [105;46] TY_SRV 1 flush (RSrv 0 0 80 [104;46]) 0.
+
+Lemma suppress_flush_refuted :
+  exists mine tm theirs tt,
+    suppress_spec mine tm theirs tt = true /\ suppressed_by_answer mine tm theirs tt = false.
+Proof. exists (srv_example true), 120, (srv_example false), 120. split; vm_compute; reflexivity. Qed.
+
+Lemma chk_C10_rel_sound mine tm theirs tt :
+  i_flush mine = i_flush theirs ->
+  chk_C10_rel mine tm theirs tt (matches mine theirs) (rrdata_match mine theirs)
+    (suppressed_by_answer mine tm theirs tt) = true.
+Proof.
+  intros Hf. unfold chk_C10_rel. rewrite (suppress_agrees_with_spec _ _ _ _ Hf).
+  rewrite Bool.eqb_reflx. simpl.
+  destruct (matches mine theirs) eqn:E; [|reflexivity]. rewrite (matches_rrdata _ _ E). reflexivity.
+Qed.
+
+Lemma suppressed_by_iff mine tm kas :
+  suppressed_by mine tm kas = true <->
+  exists k, In k kas /\ matches mine (fst k) = true /\ tm < 2 * snd k.
+Proof.
+  unfold suppressed_by. rewrite existsb_exists. split; intros (k & Hin & H); exists k; split; auto.
+  - apply suppress_iff; assumption.
+  - apply suppress_iff; assumption.
+Qed.
+
+(* responder: add_answer drops the answer iff some known answer suppresses it *)
+Lemma add_answer_spec kas out a :
+  add_answer kas out a =
+  if suppressed_by (o_id a) (o_ttl a) kas
+  then (mkOut (out_answers out) (out_additionals out) (out_suppressed out + 1), false)
+  else (mkOut (out_answers out ++ [a]) (out_additionals out) (out_suppressed out), true).
+Proof. reflexivity. Qed.
+
+Lemma add_answer_dropped_iff kas out a :
+  snd (add_answer kas out a) = false <->
+  exists k, In k kas /\ matches (o_id a) (fst k) = true /\ o_ttl a < 2 * snd k.
+Proof.
+  rewrite <- suppressed_by_iff. unfold add_answer.
+  destruct (suppressed_by _ _ _); simpl; split; auto; discriminate.
+Qed.
+
+(* a suppressed PTR takes all its additionals with it; an unsuppressed one brings all of them *)
+Lemma add_answer_with_additionals_spec kas out ptr adds :
+  add_answer_with_additionals kas out true ptr adds =
+  if suppressed_by (o_id ptr) (o_ttl ptr) kas
+  then mkOut (out_answers out) (out_additionals out) (out_suppressed out + 1)
+  else mkOut (out_answers out ++ [ptr]) (out_additionals out ++ adds) (out_suppressed out).
+Proof.
+  unfold add_answer_with_additionals, add_answer. simpl.
+  destruct (suppressed_by _ _ _); reflexivity.
+Qed.
+
+Lemma add_answer_with_additionals_no_addr kas out ptr adds :
+  add_answer_with_additionals kas out false ptr adds = out.
+Proof. reflexivity. Qed.
